@@ -71,6 +71,12 @@ BASIC = [
                            Rule('V', S(INT, Str('.'), INT))]),
     G('match-rule-choice', [Rule('M', Asg('vs', '+=', Ref('V'))), Rule('V', A(INT, ID, Str('#')))]),
     G('match-regex', [Rule('M', S(Asg('h', '=', Re(r'#[0-9a-f]+')), Asg('r', '=', Re(r'[^;]*')), Str(';')))]),
+    # use_regexp_group only concerns regexes with exactly one group: with two groups the value is the whole match
+    G('regex-two-groups', [Rule('M', S(Asg('t', '=', Re(r'<(\w+)>(!)?')), Opt(Asg('u', '=', Re(r'\[((\w)-\d)\]')))))],
+      use_regexp_group=True),
+    # a containment list typed by an abstract rule with match alternatives: primitive values and objects mixed
+    G('mixed-list', [Rule('M', Asg('vs', '+=', Ref('V'))), Rule('V', A(INT, Ref('O'))),
+                     Rule('O', S(Str('o'), Asg('name', '=', ID), Asg('kids', '*=', Ref('V')), Str(';')))]),
     G('abstract', [Rule('M', Asg('es', '+=', Ref('E'))), Rule('E', A(Ref('N'), Ref('P'))),
                    Rule('N', Asg('v', '=', INT)), Rule('P', S(Str('('), Asg('e', '=', Ref('E')), Str(')')))]),
     G('abstract-seq', [Rule('M', Asg('es', '+=', Ref('E'))),
@@ -177,6 +183,10 @@ def multi_family():
         G('multi-match-rule-named-sep', [Rule('M', S(Asg('items', '+=', Ref('sep')), Opt(Asg('more', '*=', Ref('sep'), sep=Str(';'))))),
                                          Rule('sep', Re(r's\d'))], tags=['multi']),
         G('multi-id-values', [Rule('M', S(Asg('n', '=', ID), A(S(Str(','), Asg('n', '=', ID)), Str(';'))))], tags=['multi']),
+        # the same literal is assigned in one place and suppressed in a later one (another rule)
+        G('multi-same-literal-suppressed-later', [Rule('M', S(Str('m'), Star(A(Asg('ss', '+=', Str('+')), Asg('ss', '+=', Str('-')))),
+                                                              Opt(Asg('l', '=', Ref('L'))))),
+                                                  Rule('L', S(Sup(Str('<')), ID, Sup(Str('-')), Sup(Str('+'))))], tags=['multi']),
         # a repeat operator directly on a list assignment (the assignment itself is a repetition)
         G('multi-opt-of-star-asg', [Rule('M', S(Str('m'), Opt(Asg('a', '*=', INT)), Str(';')))], tags=['multi']),
         G('multi-plus-of-star-asg', [Rule('M', S(Asg('a', '=', INT), Plus(Asg('a', '*=', INT)), Opt(Str(';'))))], tags=['multi']),
@@ -260,6 +270,10 @@ KEYWORDS = [
     G('kw-list', [Rule('M', Plus(A(S(Str('a'), Asg('xs', '+=', ID)), S(Str('ab'), Asg('ys', '+=', INT)))))], tags=['kw']),
     G('kw-sep', [Rule('M', Asg('xs', '+=', INT, sep=Str('and')))], tags=['kw']),
     G('kw-regex', [Rule('M', S(Str('b'), Asg('h', '=', Re(r'x[a-c]+')), Opt(Str('end'))))], tags=['kw']),
+    # the same keyword plain in one rule and suppressed in a later one
+    G('kw-same-keyword-suppressed-later', [Rule('M', S(Str('b'), Asg('n', '=', ID), Asg('cs', '*=', Ref('C')), Str('e'))),
+                                           Rule('C', S(Str('d'), Asg('w', '=', ID), Sup(Str('e'))))],
+      tags=['kw'], autokwd=True),
     # the Comment rule as a choice of regex literals with letters: comments are matched like any other literal
     G('kw-comment-choice', [Rule('M', S(Str('b'), Asg('x', '=', ID))),
                             Rule('Comment', A(Re(r'c\b.*$'), Re(r'#.*$')))], tags=['kw']),
